@@ -35,6 +35,8 @@ TRUSTED_BASE = [
     'hand-written model coq/theories/Bdb/Model.v of bdb.Bdb / pdb.Pdb 3.12.1 stop logic, CustomizedPdb, WithContext, pluggy firstresult '
     'LIFO/trylast call order, FilerByModule.filter, CPython trace_trampoline (None leaves f_trace); compared with the real code on every run',
     'reference recorder harness/reference.py (raw sys.settrace stream per thread/task) and harness/child.py',
+    'glue tie "options in force": harness/options_worker.py drives the real Nextline object (constructor, start, reset ..., close) and reads '
+    'context.run_arg in on_initialize_run; compared with coq/theories/Bdb/Options.v (C05_options_in_force)',
     'modelled, not verified: CPython generates the same call/line/return/exception events for the program whether it runs under '
     'nextline or under the recorder; frames do not migrate between threads/tasks',
 ]
@@ -134,6 +136,8 @@ def gen_jobs(rng, tier: str) -> list[dict]:
             jobs.append(make_job(lambda p, r, s=src: s, set(), 'fixed:' + name, 'str', pol, True, False, rng))
         if tier != 'quick':
             for pol in ('step', 'next', 'continue'):
+                if name == 'syntax-error':
+                    continue            # a code object cannot be built from it
                 jobs.append(make_job(lambda p, r, s=src: s, set(), 'fixed:' + name, 'code', pol, True, True, rng))
     max_size, nrand, per = (2, 60, 1) if tier == 'quick' else (3, 1500, 1)
     blocks = list(progen.enumerate_programs(max_size))
@@ -323,8 +327,14 @@ def oracle(job: dict, res: dict, ref: dict, per: dict, traces: dict, match: dict
                                 f'{who}: all-continue: prompted {len(prompts)} times; after the first prompt (line {p0["line"]}) again at '
                                 f'line {p1["line"]} ({p1["event"]})'))
             else:
+                # "the frame being stepped" = the frame of the first prompt, until the prompt of its return (what is
+                # prompted after it has returned -- its callers, or with module tracing on library code run by them --
+                # is not "inside the calls it makes")
                 fid = prompts[0]['frame']
-                inside = [p for p in prompts if p['frame'] != fid]
+                upto = next((i for i, p in enumerate(prompts) if p['event'] == 'return' and p['frame'] == fid), len(prompts) - 1)
+                stepped = prompts[:upto + 1]
+                inside = [p for p in stepped if p['frame'] != fid]
+                got_lines = [p['line'] for p in stepped if p['event'] == 'line' and p['frame'] == fid]
                 if inside:
                     p1 = inside[0]
                     bad.append(('next:prompt-inside-a-call', f'{who}: all-next: prompted at line {p1["line"]} ({p1["event"]}) in {p1["func"]}(), '
@@ -427,11 +437,19 @@ def build_cases(job: dict, res: dict, ref: dict, per: dict, traces: dict, match:
 def run(ctx, jobs: list, corr: Corr, seen: set, model: bool = True) -> None:
     from .. import child
     results = child.run_jobs([{k: v for k, v in j.items() if k not in ('block', 'name', 'exact', 'pol', 'expect')} for j in jobs], par=14, chunk=8)
-    redo = [i for i, r in enumerate(results) if r.get('error') or not r.get('reference')]
-    if redo:
-        again = child.run_jobs([dict({k: v for k, v in jobs[i].items() if k not in ('block', 'name', 'exact', 'pol', 'expect')}, id=f'r{i}') for i in redo], par=6, chunk=2)
+    # infrastructure failures (time-outs under load, a worker that died): run again, the last time one at a time;
+    # a job that succeeds on a retry is an ordinary job
+    strip = ('block', 'name', 'exact', 'pol', 'expect')
+    for attempt, (par, chunk) in enumerate([(6, 2), (1, 1)]):
+        redo = [i for i, r in enumerate(results) if r.get('error') or not r.get('reference')]
+        if not redo:
+            break
+        ctx.log(f'retry {attempt + 1}: {len(redo)} job(s): ' + ', '.join(f'{jobs[i]["name"]}:{results[i].get("error")}' for i in redo[:5]))
+        again = child.run_jobs([dict({k: v for k, v in jobs[i].items() if k not in strip}, id=f'r{attempt}_{i}') for i in redo], par=par, chunk=chunk)
         for i, r in zip(redo, again):
-            results[i] = r
+            if not (r.get('error') or not r.get('reference')) or attempt == 1:
+                results[i] = r
+        corr.extra['retried_jobs'] = corr.extra.get('retried_jobs', 0) + len(redo)
     hist = corr.extra.setdefault('shapes', {'jobs': 0, 'by_policy': {}, 'by_form': {}, 'trace_modules_on': 0, 'trace_threads_off': 0,
                                             'streams': 0, 'thread_streams': 0, 'task_streams': 0, 'prompts': 0, 'raw_events': 0,
                                             'oracle_only_jobs': 0, 'failed_runs': 0, 'kinds': {}})
@@ -450,6 +468,16 @@ def run(ctx, jobs: list, corr: Corr, seen: set, model: bool = True) -> None:
 
     for ji, (job, res) in enumerate(zip(jobs, results)):
         ref = res.get('reference')
+        if res.get('error') == 'timeout':
+            # three runs did not finish: not a disagreement between model and implementation but a run that hangs
+            hist['failed_runs'] += 1
+            last = [[e.get('type'), e.get('event'), e.get('line_no')] for e in res.get('events', [])][-6:]
+            corr.violations.append(Violation('run-does-not-terminate-under-nextline',
+                                             f'[{job["name"]}, {job["form"]}, policy {job["pol"]}] the run did not finish within {job.get("timeout")} s in three '
+                                             f'attempts; last events {last}',
+                                             {'job': {k: job[k] for k in ('src', 'form', 'trace_threads', 'trace_modules', 'policy', 'pol', 'name')},
+                                              'last_events': last}))
+            continue
         if res.get('error') or not ref or ref.get('error') or ref.get('truncated'):
             hist['failed_runs'] += 1
             corr.mismatches.append({'kind': 'run-failed', 'error': res.get('error') or (ref or {}).get('error') or 'no reference / truncated',
@@ -529,8 +557,108 @@ def run(ctx, jobs: list, corr: Corr, seen: set, model: bool = True) -> None:
                                     'cmds': d['cmds'][:60] if d else []})
 
 
+# ---------------------------------------------------------------- glue tie: the options in force for a run
+
+OPT3 = [None, False, True]
+
+
+def gen_option_histories(rng, n: int) -> list[dict]:
+    """constructor options, then 1-4 resets; each option independently absent / False / True; statement absent or changed"""
+    hs = []
+    # every (initial value, one reset value) combination first, then random histories
+    for t0 in (False, True):
+        for g in OPT3:
+            hs.append({'init': {'trace_threads': t0, 'trace_modules': not t0, 'statement': 'x = 0\n'},
+                       'resets': [{k: v for k, v in (('trace_threads', g), ('trace_modules', g)) if v is not None}]})
+    for i in range(n):
+        init = {'trace_threads': rng.random() < 0.5, 'trace_modules': rng.random() < 0.5, 'statement': f'x = {i}\n'}
+        resets = []
+        for j in range(rng.randint(1, 4)):
+            r = {}
+            for k in ('trace_threads', 'trace_modules'):
+                v = rng.choice(OPT3)
+                if v is not None:
+                    r[k] = v
+            if rng.random() < 0.3:
+                r['statement'] = f'y = {i}{j}\n'
+            resets.append(r)
+        hs.append({'init': init, 'resets': resets})
+    return hs
+
+
+def run_options(ctx, corr: Corr, n: int) -> None:
+    """random option histories on the REAL Nextline object vs Bdb/Options.v (and the direct oracle)"""
+    import subprocess
+    hs = gen_option_histories(ctx.rng, n)
+    env = dict(__import__('os').environ, PYTHONPATH=f'{C.REPO}:{C.VERIF}')
+    out = None
+    for attempt in range(2):
+        try:
+            p = subprocess.run([C.PY, '-u', '-m', 'harness.options_worker'], input=json.dumps(hs), text=True, stdout=subprocess.PIPE,
+                               stderr=subprocess.DEVNULL, env=env, cwd=str(C.VERIF), timeout=300)
+            line = next((l for l in p.stdout.splitlines() if l.startswith('@@O ')), None)
+            if line:
+                out = json.loads(line[4:])
+                break
+        except subprocess.TimeoutExpired:
+            pass
+    if out is None or len(out) != len(hs):
+        corr.mismatches.append({'kind': 'options-worker-failed'})
+        return
+    cases = []
+    src = []
+    code = {None: 0, False: 1, True: 2}
+    for h, r in zip(hs, out):
+        if 'error' in r:
+            corr.mismatches.append({'kind': 'options-run-failed', 'history': h, 'error': r['error']})
+            continue
+        seen = r['seen']
+        corr.evaluations += 1
+        # ---- oracle (property text: the options in effect for the run = last value explicitly given, else the constructor's)
+        cur = dict(h['init'])
+        want = [[cur['trace_threads'], cur['trace_modules'], cur['statement']]]
+        for rs in h['resets']:
+            for k, v in rs.items():
+                cur[k] = v
+            want.append([cur['trace_threads'], cur['trace_modules'], cur['statement']])
+        got = [x[:3] for x in seen]
+        if len(got) != len(want):
+            corr.violations.append(Violation('options:run-not-initialized-after-reset', f'option history {h}: {len(want)} runs were prepared, '
+                                             f'on_initialize_run was called {len(got)} times', {'level': 'options', 'history': h, 'observed': seen}))
+        else:
+            for i, (g, w) in enumerate(zip(got, want)):
+                for j, k in enumerate(('trace_threads', 'trace_modules', 'statement')):
+                    if g[j] != w[j]:
+                        given = [rs.get(k, 'absent') for rs in h['resets'][:i]]
+                        corr.violations.append(Violation(
+                            f'options:reset-value-not-in-force:{k}',
+                            f'Nextline(..., {k}={h["init"][k]!r}) then reset() with {k} = {given}: the RunArg of the next run has {k}={g[j]!r}, '
+                            f'the last value explicitly given is {w[j]!r}',
+                            {'level': 'options', 'history': h, 'observed': seen, 'run_index': i, 'option': k, 'required': w[j], 'got': g[j]}))
+                        break
+                else:
+                    continue
+                break
+        hist = [(code[rs.get('trace_threads')], code[rs.get('trace_modules')]) for rs in h['resets']]
+        obs = [(bool(x[0]), bool(x[1])) for x in seen]
+        cases.append(f'({C.cbool(h["init"]["trace_threads"])}, {C.cbool(h["init"]["trace_modules"])}, '
+                     f'[{";".join(f"({a}%nat,{b}%nat)" for a, b in hist)}], [{";".join(f"({C.cbool(a)},{C.cbool(b)})" for a, b in obs)}])')
+        src.append((h, seen))
+    text = ('From NL Require Import Bdb.Options.\nFrom Coq Require Import List.\nImport ListNotations.\n'
+            'Definition cases : list opt_case :=\n [' + ';\n  '.join(cases) + '].\nEval vm_compute in bad_from 0%nat cases.\n')
+    ok, log = ctx.coq_eval('options_cases', text)
+    badl = C.parse_nat_list(log) if ok else None
+    if badl is None:
+        corr.mismatches.append({'kind': 'coq-eval-failed', 'file': 'options_cases', 'log': log[-600:]})
+    else:
+        for b in badl:
+            corr.mismatches.append({'kind': 'options-model-vs-real', 'history': src[b][0], 'observed': src[b][1]})
+    corr.extra['option_histories'] = len(hs)
+    corr.traces_validated += len(cases)
+
+
 def order_violations(corr: Corr) -> None:
-    corr.violations.sort(key=lambda v: (len(v.data.get('job', {}).get('src', '')), v.signature))
+    corr.violations.sort(key=lambda v: (len(v.data.get('job', {}).get('src', '')) + len(json.dumps(v.data.get('history', ''))), v.signature))
 
 
 def correspond(ctx) -> Corr:
@@ -543,6 +671,7 @@ def correspond(ctx) -> Corr:
     jobs = gen_jobs(ctx.rng, ctx.tier)
     ctx.log(f'{len(jobs)} jobs')
     run(ctx, jobs, corr, seen)
+    run_options(ctx, corr, 120 if ctx.tier == 'quick' else 1500)
     order_violations(corr)
     ctx.log(f'jobs={corr.evaluations} streams compared={corr.traces_validated} mismatches={len(corr.mismatches)} oracle hits={len(corr.violations)}')
     return corr
@@ -562,6 +691,7 @@ def search(ctx, broken) -> list:
         jobs.append(make_job(lambda p, r, b=b: progen.render(b, p, r), progen.kinds_of(b), f'search{i}', FORMS[i % 4],
                              POLICIES[i % len(POLICIES)][0], i % 5 != 4, i % 3 == 2, rng))
     run(ctx, jobs, corr, seen, model=False)
+    run_options(ctx, corr, 600)
     order_violations(corr)
     return corr.violations
 
@@ -569,6 +699,21 @@ def search(ctx, broken) -> list:
 def replay(ctx, path: Path) -> int:
     from .. import child
     j = json.loads(Path(path).read_text())
+    if j.get('level') == 'options':
+        import subprocess
+        h = j['history']
+        p = subprocess.run([C.PY, '-u', '-m', 'harness.options_worker'], input=json.dumps([h]), text=True, stdout=subprocess.PIPE,
+                           env=dict(__import__('os').environ, PYTHONPATH=f'{C.REPO}:{C.VERIF}'), cwd=str(C.VERIF), timeout=120)
+        line = next((l for l in p.stdout.splitlines() if l.startswith('@@O ')), '@@O [{}]')
+        seen = json.loads(line[4:])[0].get('seen')
+        print('constructor:', h['init'])
+        for i, rs in enumerate(h['resets']):
+            print(f'reset #{i + 1}:', rs)
+        print('RunArg per run (trace_threads, trace_modules, statement, run_no):', seen)
+        i, k = j.get('run_index', 0), j.get('option')
+        bad = bool(seen) and len(seen) > i and seen[i][['trace_threads', 'trace_modules', 'statement'].index(k)] != j.get('required')
+        print('VIOLATION' if bad else 'not reproduced', j.get('signature'))
+        return 1 if bad else 0
     job = dict(j['job'], reference=True, timeout=40)
     job.setdefault('exact', False)
     res = child.run_jobs([{k: v for k, v in job.items() if k not in ('name', 'exact', 'pol')}])[0]
